@@ -12,7 +12,9 @@
 (*   reduce_with_powers, truncate the final polynomial).                   *)
 (* Verifier (implementation-shaped): verify_fri_proof /                    *)
 (*   fri_verifier_query_round as the named checks                          *)
-(*     Pow, NumRounds, InitMerkle<o>, Consistency<k>, LayerMerkle<k>, Final *)
+(*     Shape (only its part that no other check subsumes: the length of the *)
+(*     final polynomial), Pow, NumRounds, InitMerkle<o>, Consistency<k>,    *)
+(*     LayerMerkle<k>, Final                                                *)
 (*   (k = 0-based commit-phase layer as in the code), each of which can be *)
 (*   switched off through the constant Disabled.                           *)
 (* Merkle binding is abstract: a committed table is a fixed function; the  *)
@@ -64,6 +66,17 @@
 (*                       coset passes Final: only LayerMerkle reads the    *)
 (*                       difference at the sibling positions ("off" =      *)
 (*                       positions of other cosets, which now fail Final)  *)
+(*   final_extend        a zero coefficient appended to the final polynomial*)
+(*   final_truncate      its last coefficient dropped                      *)
+(*   degree_scaled j=e   Fiat-Shamir consistent: every polynomial has 2^e  *)
+(*                       times the allowed number of coefficients (a prover*)
+(*                       run with degree_bits+e, rate_bits-e: same domain, *)
+(*                       same trees, same schedule), true values claimed,  *)
+(*                       folded honestly; the final polynomial has 2^e*FL  *)
+(*                       coefficients and IS the true fold, so every       *)
+(*                       algebraic check passes: only Shape (the final     *)
+(*                       polynomial has exactly final_poly_len coefficients*)
+(*                       ) stands between this prover and acceptance       *)
 (* Merkle binding being abstract, an empty path is not a different case of *)
 (* the MODEL (the check is "opened = committed, path and cap intact"); it  *)
 (* is a case of the IMPLEMENTATION, so the catalogue carries j as a        *)
@@ -99,7 +112,7 @@ CName == [l \in 1..NL |-> "Consistency" \o ToString(l - 1)]
 MName == [l \in 1..NL |-> "LayerMerkle" \o ToString(l - 1)]
 RECURSIVE LayerNames(_)
 LayerNames(l) == IF l > NL THEN <<>> ELSE <<CName[l], MName[l]>> \o LayerNames(l + 1)
-Order == <<"Pow", "NumRounds", IName[1], IName[2], IName[3], IName[4]>> \o LayerNames(1) \o <<"Final">>
+Order == <<"Shape", "Pow", "NumRounds", IName[1], IName[2], IName[3], IName[4]>> \o LayerNames(1) \o <<"Final">>
 First(F) == IF F = {} THEN "none" ELSE Order[CHOOSE i \in 1..Len(Order) : Order[i] \in F /\ \A j \in 1..(i - 1) : Order[j] \notin F]
 
 Horner(s, a) == ReducePow(s, 1, Len(s), a)
@@ -251,8 +264,12 @@ AddPos(acc, c, F, g) ==
       sets |-> IF g THEN [acc.sets EXCEPT ![c] = @ \cup {F}] ELSE acc.sets]
 
 FinalCoeffs(pcF) ==
-  Let(SubSeq(pcF, 1, FL), LAMBDA fc :        \* coeffs.truncate(len >> rate_bits)
-      IF D.k \in {"final_delta", "final_edit"} THEN Bump(fc, D.t, D.d) ELSE fc)
+  \* coeffs.truncate(len >> rate_bits); the degree_scaled prover runs with rate_bits - e
+  Let(SubSeq(pcF, 1, IF D.k = "degree_scaled" THEN FL * 2 ^ D.j ELSE FL), LAMBDA fc :
+      CASE D.k \in {"final_delta", "final_edit"} -> Bump(fc, D.t, D.d)
+        [] D.k = "final_extend" -> Append(fc, 0)
+        [] D.k = "final_truncate" -> SubSeq(fc, 1, Len(fc) - 1)
+        [] OTHER -> fc)
 
 (* everything that depends on the last folding challenge, for all query positions *)
 Leaf(beta) ==
@@ -266,8 +283,8 @@ Leaf(beta) ==
   Let(TLCEval([c \in 1..LSize(NL) |-> EvalPoly(fc, XTab[NL][c - 1]) # vF[c]]), LAMBDA ff :
     FoldSet(LAMBDA i, acc :
               AddPos(acc, cls[i],
-                     IF D.k = "drop_round" THEN GlobalFail      \* zip(): no round, nothing is checked
-                     ELSE GlobalFail \cup fails[i]
+                     IF D.k = "drop_round" THEN GlobalFail \cup (IF Len(fc) # FL THEN {"Shape"} ELSE {})  \* zip(): no round
+                     ELSE GlobalFail \cup fails[i] \cup (IF Len(fc) # FL THEN {"Shape"} ELSE {})
                           \cup (IF ff[((i - 1) \div 2 ^ SumAr(NL)) + 1] THEN {"Final"} ELSE {}),
                      g),
             ZeroStats, 1..N))))))
